@@ -108,8 +108,6 @@ impl Smp {
             Smp::Ising(q, edges) => {
                 let info = q.make_haminfo();
                 let nvars = q.get_nvars();
-                let nb = q.get_manager_ref().get_cutoff(); // placeholder to keep borrowck simple
-                let _ = nb;
                 let snap = serde_json::to_value(q).unwrap();
                 let h = snap["longitudinal"].as_f64().unwrap();
                 let mut out = vec![];
@@ -617,7 +615,7 @@ fn prob_case(g: &mut SplitMix64) -> bool {
     let h0 = match found {
         Some(x) => x,
         None => {
-            emit(true, &input, "bond-never-selected", Some(Err(format!("bond {} (table entry {}) was not selected by any of {} evenly spaced words", b, mx[b], grid))));
+            emit(true, &input, "bond-never-selected", Some(Err(format!("bond {} (table entry {}) was not selected by any of {} evenly spaced words", b, mx.get(b).cloned().unwrap_or(f64::NAN), grid))));
             return true;
         }
     };
@@ -681,7 +679,7 @@ fn prob_case(g: &mut SplitMix64) -> bool {
         ));
     }
     stat(&format!("prob_{}", kind), 1);
-    stat(if w < mx[b] { "prob_below_max" } else { "prob_at_max" }, 1);
+    stat(if w < mx.get(b).cloned().unwrap_or(f64::NAN) { "prob_below_max" } else { "prob_at_max" }, 1);
     if mx.iter().any(|m| *m != mx[0]) {
         stat("prob_unequal_maxima", 1);
     }
